@@ -24,6 +24,10 @@ statement):
 * an update that returns normally is *accepted*: assigned options hold the assigned
   values, the others are untouched, and every interested listener was called with exactly
   the set of assigned names;
+* listeners come and go: the manager only keeps weak references, the harness holds the only
+  strong one and may delete it between operations ("drop").  A dropped listener is owed
+  nothing; every listener that is still alive is owed every notification, and its
+  objection still makes the update roll back;
 * after every operation each held value conforms to the declared type;
 * ``save`` that returned normally followed by a load into fresh options (optionally with
   some options registered only later = deferred) reproduces every non-default value.
@@ -34,8 +38,10 @@ from __future__ import annotations
 import contextlib
 import copy
 import errno
+import gc
 import io
 import typing
+import weakref
 from collections.abc import Sequence
 
 from mitmproxy import exceptions
@@ -61,11 +67,14 @@ RULE = ("seeded histories of 4-30 operations over a generated option schema cont
         "for the restored values (optionally only for named options); in a share of the updates 1-3 listeners react "
         "to the notification by updating OTHER options (update/setattr/setter/toggler/set, some wrongly typed or "
         "malformed, some rejected by a listener, OptionsError swallowed or passed on, nesting depth 1-3) while a "
-        "listener called earlier/later/the same one rejects the outer or the nested update; string values from a "
+        "listener called earlier/later/the same one rejects the outer or the nested update; listener lifetimes: "
+        "between operations the component behind a changed receiver or subscriber goes away (last strong reference "
+        "deleted + gc.collect(); mostly one with live listeners connected before and after it) and the next operation "
+        "is an update that the following live listener observes or rejects; string values from a "
         "YAML-hostile pool. non-trivial = at least one accepted "
         "state-changing update AND (a rejected update or a checked round trip); distinct = distinct event-log digests")
 COMPONENTS_REAL = ["optmanager.OptManager", "optmanager._Option", "utils.typecheck.check_option_type",
-                   "utils.signals.SyncSignal", "optmanager.save/load_paths/load/serialize/parse", "ruamel.yaml",
+                   "utils.signals.SyncSignal (weak receiver references, clean-up of dead receivers)", "optmanager.save/load_paths/load/serialize/parse", "ruamel.yaml",
                    "io.TextIOWrapper/io.BufferedWriter"]
 COMPONENTS_STUB = ["pathlib.Path inside optmanager (SimPath over an in-memory SimFS with write faults)",
                    "listeners (scripted addons: observe, optionally raise OptionsError)"]
@@ -74,6 +83,8 @@ ASSUMPTIONS = ["any exception leaving an update call means the update was reject
                "list and tuple values of a sequence option with equal elements are the same value",
                "a listener that updates options while it is being notified only touches options other than the ones "
                "it is being notified about, and lets no exception other than OptionsError escape",
+               "a listener whose receiver object has been deleted and collected is gone: nothing is expected to reach "
+               "it any more, every other listener is still owed every notification",
                "a listener that objects to a nested update rejects that nested update; the enclosing update is "
                "rejected only if the acting listener passes the OptionsError on",
                "nothing is demanded from a save() that raised, nor from files that contained invalid entries "
@@ -84,7 +95,9 @@ EXPECTED_PROBES = ["rejected_by_listener", "rejected_by_type_kth", "rejected_by_
                    "set_malformed", "corrupt_config",
                    "nested_update_then_outer_rejected", "nested_update_then_outer_accepted", "nested_update_committed",
                    "nested_update_rejected_by_listener", "nested_update_rejected_by_value",
-                   "nested_update_then_nested_rejected", "nested_depth2_committed", "nested_rejection_passed_on"]
+                   "nested_update_then_nested_rejected", "nested_depth2_committed", "nested_rejection_passed_on",
+                   "listener_dropped", "listener_dropped_before_update", "subscriber_dropped_before_update",
+                   "listener_dropped_between_live_ones"]
 
 TYPES = {
     "bool": bool,
@@ -611,6 +624,9 @@ def gen_spec(g, nm, t):
 #   (= this listener rejects the enclosing update) when `propagate`.
 # a rule may carry "only": [names] - the listener then objects only to (new values of) these options.
 NEST_SHARE = {"quick": 0.2, "thorough": 0.25}
+# {"op": "drop", "l": k}: the component behind listener k goes away (its receiver object is deleted and
+# collected; the manager only holds weak references).  Probability per operation slot.
+DROP_SHARE = {"quick": 0.04, "thorough": 0.05}
 
 
 def call_rank(listeners, i):
@@ -746,9 +762,16 @@ def generate(rng, tier):
     r = rng.at("c44")
     g = Gen(r, tier)
     nest_share = NEST_SHARE.get(tier, NEST_SHARE["quick"])
+    drop_share = DROP_SHARE.get(tier, DROP_SHARE["quick"])
+    after_drop = [None]  # set by a drop: the live listener of the same kind connected next after it (-1: none)
 
     def reactions(op, outer):
         """attach reacting listeners to (some of) the updates of known options"""
+        f, after_drop[0] = after_drop[0], None
+        if f is not None and f >= 0 and r.random() < 0.45:
+            # the listener that follows the dropped one objects to this update
+            op["rules"] = [{"l": f, "phase": r.choice(["fwd", "fwd", "both"])}]
+            return op
         outer = [n for n in outer if n in known]
         if outer and nl and r.random() < nest_share:
             acts, rules = gen_nesting(g, listeners, sorted(set(outer)), known, types)
@@ -794,8 +817,24 @@ def generate(rng, tier):
     paths = ["/conf/config.yaml", "/conf/other.yaml"]
     maybe_torn = set()  # paths whose content may stem from a failed save: never loaded into the live options
     nops = r.choice([4, 6, 8, 10, 14, 20, 30])
+    alive = list(range(nl))  # listeners whose component has not been dropped yet
     while len(ops) < nops:
+        if alive and r.random() < drop_share:
+            # a listener's component goes away (mostly one with a live listener of its kind connected after it)
+            def followers(k):
+                return [i for i in alive if i > k and listeners[i]["kind"] == listeners[k]["kind"]]
+            cands = [k for k in alive if followers(k)]
+            k = r.choice(cands) if cands and r.random() < 0.75 else r.choice(alive)
+            f = followers(k)
+            alive.remove(k)
+            ops.append({"op": "drop", "l": k})
+            after_drop[0] = f[0] if f else -1
+            continue
         x = r.random()
+        if after_drop[0] is not None:
+            x *= 0.5  # ... and the next operation is an update (update/set/toggle)
+            if x >= 0.46 and not [n for n in known if types[n] == "bool"]:
+                x = 0.0
         if x < 0.36:
             via = r.choice(["update", "update", "update", "update_known", "update_defer", "setattr", "merge"])
             if via == "setattr":
@@ -896,14 +935,7 @@ class Listener:
         self.kind = kind
         self.names = set(names) if names is not None else None
         self.view: dict[str, typing.Any] = {}
-
-    # opts.changed receiver
-    def on_changed(self, updated):
-        self.observe(updated)
-
-    # opts.subscribe callback
-    def on_sub(self, options, updated):
-        self.observe(updated)
+        self.alive = True   # False once the harness dropped the receiver object (op "drop")
 
     def observe(self, updated):
         h = self.h
@@ -957,6 +989,23 @@ class Listener:
             raise exceptions.OptionsError(f"listener {self.idx} rejects ({phase})")
 
 
+class Receiver:
+    """What is actually connected to the manager (which only keeps weak references to it): a bound method
+    of this object.  Harness.receivers holds the ONLY strong reference; the Listener record it forwards to
+    (the oracle's bookkeeping about this listener) does not point back here."""
+
+    def __init__(self, record: Listener):
+        self.record = record
+
+    # opts.changed receiver
+    def on_changed(self, updated):
+        self.record.observe(updated)
+
+    # opts.subscribe callback
+    def on_sub(self, options, updated):
+        self.record.observe(updated)
+
+
 class Harness:
     def __init__(self, sc):
         self.sc = sc
@@ -992,6 +1041,8 @@ class Harness:
         self.roundtrips = 0
         self.opts = optmanager.OptManager()
         self.listeners: list[Listener] = []
+        self.receivers: dict[int, Receiver] = {}   # the only strong references to what is connected
+        self.dropped_pending = None                 # (kind, live one connected later?, earlier?) of the last drop
 
     # -- bookkeeping ---------------------------------------------------------
     def fault(self, k):
@@ -1073,6 +1124,8 @@ class Harness:
     def check_accept_notifications(self, frame, assigned, what):
         names = tuple(sorted(assigned))
         for L in self.listeners:
+            if not L.alive:
+                continue  # its component is gone: nothing is expected to reach it
             mine = [c for c, info in zip(self.calls, self.callinfo) if c[0] == L.idx and info[1] == frame["id"]]
             interested = L.kind == "changed" or bool(L.names & set(names))
             if interested and not mine and (L.kind == "changed" or L.names):
@@ -1211,13 +1264,34 @@ class Harness:
         for i, l in enumerate(self.sc.get("listeners", [])):
             if l["kind"] == "changed":
                 L = Listener(self, i, "changed", None)
-                self.opts.changed.connect(L.on_changed)
+                self.receivers[i] = Receiver(L)
+                self.opts.changed.connect(self.receivers[i].on_changed)
             else:
                 names = [n for n in l.get("names", []) if n in self.known]
                 L = Listener(self, i, "subscribe", names)
+                self.receivers[i] = Receiver(L)
                 if names:
-                    self.opts.subscribe(L.on_sub, names)
+                    self.opts.subscribe(self.receivers[i].on_sub, names)
             self.listeners.append(L)
+
+    def op_drop(self, op):
+        """The component behind a listener goes away: the last strong reference to its receiver is deleted
+        (and the garbage collected at once, so that nothing depends on when the collector would run)."""
+        idx = int(op.get("l", -1))
+        if idx not in self.receivers:
+            return
+        L = self.listeners[idx]
+        probe_ref = weakref.ref(self.receivers[idx])
+        del self.receivers[idx]
+        gc.collect()
+        if probe_ref() is not None:
+            raise RuntimeError(f"C44 harness: receiver {idx} is still referenced after drop + gc.collect()")
+        L.alive = False
+        later = [M for M in self.listeners[idx + 1:] if M.alive and M.kind == L.kind and (M.kind == "changed" or M.names)]
+        earlier = [M for M in self.listeners[:idx] if M.alive and M.kind == L.kind and (M.kind == "changed" or M.names)]
+        self.probe("listener_dropped")
+        self.dropped_pending = (L.kind, bool(later), bool(earlier))
+        self.log.append(("drop", idx, L.kind))
 
     # -- the core: one real call + the oracle ------------------------------------
     def transact(self, kind, via, fn, rules, expect, is_update=True, quiet=False, actors=None):
@@ -1256,6 +1330,14 @@ class Harness:
             self.actors = {}
             self.frames = [top]
         excname = type(exc).__name__ if exc is not None else None
+        if self.dropped_pending is not None and self.calls:
+            # the first notification after a listener's component went away
+            dkind, later, earlier = self.dropped_pending
+            self.dropped_pending = None
+            if is_update and later:
+                self.probe("listener_dropped_before_update" if dkind == "changed" else "subscriber_dropped_before_update")
+            if is_update and later and earlier:
+                self.probe("listener_dropped_between_live_ones")
         # (a listener that objects to a nested update rejects that nested update, not this one)
         top_raised = [x for x in self.raised if x[2] == 0]
         rejected = exc is not None or bool(top_raised)
@@ -1325,7 +1407,7 @@ class Harness:
         # 4. what listeners last observed
         if not diverged:
             for L in self.listeners:
-                stale = [n for n in sorted(L.view) if n in act and not same(L.view[n], act[n])]
+                stale = [n for n in sorted(L.view) if n in act and not same(L.view[n], act[n])] if L.alive else []
                 if stale:
                     n = stale[0]
                     undone = n in self.nested_undone
@@ -1686,6 +1768,7 @@ class Harness:
     def run(self):
         self.setup()
         table = {"update": self.op_update, "set": self.op_set, "toggle": self.op_toggle, "add": self.op_add,
+                 "drop": self.op_drop,
                  "process_deferred": self.op_process_deferred, "reset": self.op_reset,
                  "read_mutate": self.op_read_mutate, "write_config": self.op_write_config,
                  "write_raw": self.op_write_raw, "load": self.op_load, "save": self.op_save,
